@@ -1,4 +1,5 @@
 import SC.Model.Algo
+import SC.Model.Std
 import SC.Gen.Consts
 /-!
 Line-protocol driver: one op per line on stdin, one answer per line on stdout.
@@ -7,8 +8,8 @@ Line-protocol driver: one op per line on stdin, one answer per line on stdout.
 
 `cfg` is two or three letters: `s|b` (strcase / bytcase), `n|g` (NativeIndex true / false),
 optional `a` (arm64 Cutover).  Byte strings are lower-case hex, `-` for empty; runes and bytes
-are decimal.  The answer is `<A>\t<S>`: the algorithm model's and the specification's result
-(`-` where there is none).  Results: ints in decimal, bools 0/1, sub-slices `(o,l)` relative to
+are decimal.  The answer is `<A>\t<S>\t<M>`: the algorithm model's and the specification's result and, for
+functions with a modelled standard-library namesake, the result of that model (`-` where there is none).  Results: ints in decimal, bools 0/1, sub-slices `(o,l)` relative to
 argument 1 (`(e)` when empty), `PANIC` / `HANG` for the fault / fuel sentinels.
 -/
 open Utf8
@@ -143,6 +144,17 @@ def run (fn : String) (cfg : A.Cfg) (args : List String) : String × String :=
   | "fruns" => (toString (S.fruns a1), "-")
   | _ => ("bad-op", "bad-op")
 
+/-- models of the standard library's namesakes (`Model/Std.lean`), compared with the real `strings`/`bytes` results -/
+def runM (fn : String) (cfg : A.Cfg) (args : List String) : String :=
+  let a1 := parseHex (args.getD 0 "-")
+  let b2 := parseHex (args.getD 1 "-")
+  match fn with
+  | "EqualFold" =>
+    match (if cfg.pkg == .byt then Std.equalFoldB a1 b2 else Std.equalFoldS a1 b2) with
+    | none => "HANG"
+    | some b => fmtBool b
+  | _ => "-"
+
 partial def loop (h : IO.FS.Stream) (out : IO.FS.Stream) : IO Unit := do
   let line ← h.getLine
   if line.isEmpty then
@@ -153,8 +165,8 @@ partial def loop (h : IO.FS.Stream) (out : IO.FS.Stream) : IO Unit := do
   | "flush" :: _ => out.flush
   | fn :: cfg :: args =>
     let (a, s) := run fn (mkCfg cfg) args
-    out.putStrLn (a ++ "\t" ++ s)
-  | _ => out.putStrLn "bad-op\tbad-op"
+    out.putStrLn (a ++ "\t" ++ s ++ "\t" ++ runM fn (mkCfg cfg) args)
+  | _ => out.putStrLn "bad-op\tbad-op\t-"
   loop h out
 
 def main : IO Unit := do
